@@ -34,10 +34,13 @@ def _read_captured(buffer):
     The text student code wrote to the given captured standard output. Student
     code can close its own ``sys.stdout``; whatever it printed is gone then,
     which must not make the execution itself fail.
+    The buffer is the student's ``sys.stdout`` for the duration of the
+    execution, so the same goes for a ``getvalue`` attribute the student stored
+    on it: the buffer is read with StringIO's own method.
     """
     try:
-        return buffer.getvalue()
-    except ValueError:
+        return io.StringIO.getvalue(buffer)
+    except Exception:
         return ""
 
 
